@@ -355,6 +355,7 @@ type Sample struct {
 	ParamIdx int    // parameter set carried by this unit (-1: none)
 	Norm     []byte // normalised payload used for comparison
 	Size     int    // payload size as counted by the muxer's size limit
+	AUDs     int    // access unit delimiters written with the unit (H264)
 }
 
 // Write is one Muxer.Write* call.
@@ -521,6 +522,9 @@ func (b *Builder) Video(writeIdx int, pts int64, ntp time.Time, o VideoOpts) [][
 	s := Sample{
 		Track: b.TrackIdx, Idx: idx, WriteIdx: writeIdx, PTS: pts, DTS: pts, NTP: ntp,
 		RA: o.RA, ParamIdx: o.ParamIdx, Norm: Norm(k, data), Size: size,
+	}
+	if k == H264 && o.PrependAUD {
+		s.AUDs = 1
 	}
 	if k == AV1 {
 		// the muxer stores the marshalled bitstream
